@@ -258,3 +258,44 @@ Example uio_example : unique_in_order Z.eqb [3; 1; 3; 2; 1] = [3; 1; 2].
 Proof. reflexivity. Qed.
 Example uio_hyp_Z : forall x y, Z.eqb x y = true <-> x = y.
 Proof. intros; apply Z.eqb_eq. Qed.
+
+(* ---- which OBJECT is kept: for ANY equivalence (equal-but-distinct objects, e.g. an edge given in both directions), not only
+   for an equality test that decides Leibniz equality, the result is `nub`: every class is represented by its FIRST member ---- *)
+Section UioEquiv.
+Context {A : Type} (eqb : A -> A -> bool).
+Hypothesis eqb_sym : forall x y, eqb x y = eqb y x.
+Hypothesis eqb_trans : forall x y z, eqb x y = true -> eqb y z = true -> eqb x z = true.
+
+Lemma filter_filter (P Q : A -> bool) l : filter P (filter Q l) = filter (fun y => Q y && P y) l.
+Proof.
+  induction l as [|a l IH]; cbn [filter]; [reflexivity|].
+  destruct (Q a) eqn:EQ; cbn [filter andb]; [destruct (P a); rewrite IH; reflexivity | exact IH].
+Qed.
+
+Lemma filter_ext_in' (P Q : A -> bool) l : (forall y, In y l -> P y = Q y) -> filter P l = filter Q l.
+Proof.
+  induction l as [|a l IH]; intros H; cbn [filter]; [reflexivity|].
+  rewrite (H a (or_introl eq_refl)), IH; [reflexivity | intros y Hy; apply H; right; exact Hy].
+Qed.
+
+Lemma uio_aux_nub_equiv l : forall seen,
+  uio_aux eqb seen l = filter (fun y => negb (existsb (eqb y) seen)) (nub eqb l).
+Proof.
+  induction l as [|x t IH]; intros seen; cbn [uio_aux nub filter]; [reflexivity|].
+  destruct (existsb (eqb x) seen) eqn:E; cbn [negb].
+  - rewrite IH, filter_filter. apply filter_ext_in'. intros y _.
+    destruct (existsb (eqb y) seen) eqn:Ey; cbn [negb]; [rewrite andb_false_r; reflexivity|].
+    rewrite andb_true_r. destruct (eqb x y) eqn:Exy; cbn [negb]; [|reflexivity].
+    exfalso. apply existsb_exists in E as [s [Hs Hxs]].
+    assert (Hys : eqb y s = true) by (apply (eqb_trans y x s); [rewrite eqb_sym; exact Exy | exact Hxs]).
+    assert (existsb (eqb y) seen = true) by (apply existsb_exists; exists s; split; assumption). congruence.
+  - f_equal. rewrite IH, filter_filter. apply filter_ext_in'. intros y _. cbn [existsb].
+    rewrite (eqb_sym y x). destruct (eqb x y); cbn [negb orb andb]; reflexivity.
+Qed.
+
+Lemma unique_in_order_nub_equiv l : unique_in_order eqb l = nub eqb l.
+Proof.
+  unfold unique_in_order. rewrite uio_aux_nub_equiv. cbn [existsb negb].
+  induction (nub eqb l) as [|a r IH]; cbn [filter]; [reflexivity | rewrite IH; reflexivity].
+Qed.
+End UioEquiv.
